@@ -453,7 +453,7 @@ fn run(args: &Args) -> i32 {
                     }
                 }
                 if !sug.too_permissive.is_empty() { feats.insert("too-permissive replacement"); }
-                // Replay of candidate finding F17e on the real code: follow the suggestion (krill's own conversion to
+                // Replay of finding F17e (repaired by 992adfab) on the real code: follow the suggestion (krill's own conversion to
                 // updates, explicit max length as the CA applies them) and analyse again.
                 let mut upd = RoaConfigurationUpdates::from(sug.clone());
                 upd.set_explicit_max_length();
@@ -468,13 +468,23 @@ fn run(args: &Args) -> i32 {
                     let valid = |r: &BgpAnalysisReport| r.matching_announcements(BgpAnalysisState::AnnouncementValid)
                         .into_iter().filter(|a| u32_of(a.asn) != 0).collect::<BTreeSet<_>>();
                     let (before, now) = (valid(rep), valid(&rep2));
-                    let lost: Vec<String> = before.difference(&now).map(|a| {
+                    // F17b: an announcement validated by two configured payloads that differ only in None vs Some(len)
+                    let twin_validated = |a: &Announcement| {
+                        let pa = RoaPayload::from(*a);
+                        configured.iter().any(|r| { let p = r.roa_configuration.payload;
+                            p.includes(pa) && configured.iter().any(|o| { let q = o.roa_configuration.payload;
+                                q != p && q.into_explicit_max_length() == p.into_explicit_max_length() }) })
+                    };
+                    let describe = |a: &Announcement| {
                         let st = rep2.entries().iter().find(|e| matches!(&e.roa_or_announcement, ConfiguredRoaOrAnnouncement::Announcement(x) if x == a))
                             .map(|e| state_name(e.state)).unwrap_or("absent");
-                        format!("{a} -> {st}") }).collect();
-                    lost_after = lost.clone();
+                        format!("{a} -> {st}") };
+                    let lost_twin: Vec<String> = before.difference(&now).filter(|a| twin_validated(a)).map(describe).collect();
+                    let lost: Vec<String> = before.difference(&now).filter(|a| !twin_validated(a)).map(describe).collect();
+                    lost_after = lost.iter().chain(lost_twin.iter()).cloned().collect();
+                    if !lost_twin.is_empty() { feats.insert("F17b: following the suggestion drops an announcement validated through None/Some(len) twins"); }
                     if !lost.is_empty() {
-                        feats.insert("F17e: following the suggestion makes a valid announcement not valid");
+                        feats.insert("F17e regression (repaired in /repo 992adfab): following the suggestion makes a valid announcement not valid");
                         if witness.is_none() {
                             candidate_findings.push(json!({"finding": "F17e", "case": case_no, "size": configured.len() + anns.len(),
                                 "roas": configured.iter().map(|r| r.to_string()).collect::<Vec<_>>(),
